@@ -15,11 +15,13 @@ import hashlib
 import json
 import os
 import re
+import threading
 from concurrent.futures import ThreadPoolExecutor
 
 import vlib
 
 LEVEL = "model_checking"
+LOCK = threading.Lock()       # shards are validated in parallel threads; classification is serialised
 SECRING = os.path.join(vlib.REPO, "pkg/jsonsign/testdata/test-secring.gpg")
 TCFG = "Trace_Claims.cfg"
 
@@ -90,7 +92,8 @@ def validate(ctx, tracefile, cases, leg):
                  for it in items if it["id"] <= ev["n"] and it["kind"] in ("claim", "delete", "permanode")]
         what = "%s says %s ; the documented semantics allow %s ; world (arrival order) %s" % (
             ev["path"], json.dumps({k: v for k, v in ev.items() if k not in ("w", "path")}, sort_keys=True), " ".join(expected.split())[:200], json.dumps(brief))
-        ctx.discrepancy(sig, what[:900], {"property": "C07", "leg": case.get("leg", leg), "signature": sig, "case": case, "event": ev})
+        with LOCK:
+            ctx.discrepancy(sig, what[:900], {"property": "C07", "leg": case.get("leg", leg), "signature": sig, "case": case, "event": ev})
     return nworlds, len(evs) - nworlds
 
 
@@ -150,7 +153,10 @@ def negative_samples(ctx, tracefile):
             raise vlib.MachineryError("negative sample (%s line %d corrupted) was accepted: the trace spec does not bind" % (kind, k + 1))
         n += 1
     if n < 3:
-        raise vlib.MachineryError("negative samples: only %d kinds of lines could be corrupted" % n)
+        if ctx.violations or ctx.known_seen:
+            ctx.notes.append("negative samples: only %d kinds of accepted lines could be corrupted (the run has discrepancies)" % n)
+        else:
+            raise vlib.MachineryError("negative samples: only %d kinds of lines could be corrupted" % n)
     ctx.count("T", negative_samples_rejected=n)
 
 
@@ -160,6 +166,8 @@ def world_key(case):
 
 
 def run(ctx, replay):
+    # many small TLC processes run side by side: keep each JVM small
+    os.environ.setdefault("JAVA_TOOL_OPTIONS", "-Xmx3g -XX:ParallelGCThreads=2 -XX:CICompilerCount=2")
     drv = ctx.build("c07")
     quick = ctx.quick()
     if replay:
@@ -173,7 +181,7 @@ def run(ctx, replay):
     sim_over = {"Mode": '"sim"', "Depth": 8, "MinItems": 3, "MaxClaims": 5, "MaxDeletes": 3, "SAttrs": '{"tag", "title"}',
                 "SVals": "{1, 2, 3}", "SDates": "{10, 20, 30}", "DelDates": "{15, 40}", "DelSigners": "{1, 2}",
                 "QTimes": "{0, 5, 10, 15, 20, 30, 35}"}
-    nr = 120 if quick else 2500
+    nr = 100 if quick else 2500
     dump = ctx.path("rnd_cases.jsonl")
     with ThreadPoolExecutor(max_workers=8) as ex:
         big = {"MaxClaims": 2, "MaxDeletes": 2} if quick else {"MaxClaims": 3, "MaxDeletes": 2}
@@ -190,11 +198,14 @@ def run(ctx, replay):
         g2 = ex.submit(ctx.tlc_gen, "ClaimsGen", "ClaimsGen.cfg", tag="WORLD",
                        overrides={"MaxClaims": 1, "MaxDeletes": 3, "Depth": 4, "SDates": "{20}", "DelDates": "{25}"})
         g3 = ex.submit(ctx.tlc_gen, "ClaimsGen", "ClaimsGen.cfg", tag="WORLD", overrides=sim_over,
-                       simulate=(350 if quick else 6000), depth=120, seed=ctx.seed)
+                       simulate=(300 if quick else 6000), depth=120, seed=ctx.seed)
+        # every triple of one signer's claims on one attribute (the smallest scope in which add/add/del interact), reduced grid
+        g6 = ex.submit(ctx.tlc_gen, "ClaimsGen", "ClaimsGen.cfg", tag="WORLD",
+                       overrides={"MaxClaims": 3, "Depth": 3, "ClaimSigners": "{1}", "QTimes": "{0, 15}", "QSigners": "{0, 1}"})
         g4 = None if quick else ex.submit(ctx.tlc_gen, "ClaimsGen", "ClaimsGen.cfg", tag="WORLD",
                                           overrides={"MaxClaims": 2, "MaxDeletes": 1, "Depth": 3, "SDates": "{10, 20}", "DelDates": "{15}"})
         g5 = ex.submit(ctx.run, [drv, "-random", str(nr), "-seed", str(ctx.seed), "-dump", dump, "-secring", SECRING], timeout=300)
-        bfs2, bfsd, sim = g1.result(), g2.result(), g3.result()
+        bfs2, bfsd, sim, bfs3 = g1.result(), g2.result(), g3.result(), g6.result()
         if g4:
             bfs2 += g4.result()
         g5.result()
@@ -202,13 +213,13 @@ def run(ctx, replay):
         # ---- G + T: replay every world on the real code, TLC validates every reply
         ctx.sample({"generated_world": [{k: v for k, v in it.items() if v not in (0, "")} for it in sim[0]["items"][2:]],
                     "query_grid": {k: sim[0][k] for k in ("attrs", "times", "signers")}})
-        cases = [dict(c, leg=tag) for tag, cs in (("G-pairs", bfs2), ("G-chains", bfsd), ("G-sim", sim), ("T-random", rnd)) for c in cs]
-        total_w, total_n, first_trace = run_cases(ctx, drv, cases, "all", 12)
+        cases = [dict(c, leg=tag) for tag, cs in (("G-pairs", bfs2), ("G-triples", bfs3), ("G-chains", bfsd), ("G-sim", sim), ("T-random", rnd)) for c in cs]
+        total_w, total_n, first_trace = run_cases(ctx, drv, cases, "all", 10)
         for f in fs:
             f.result()
     for c in cases:
         ctx.distinct(world_key(c))
-    ctx.count("G", worlds_pairs=len(bfs2), worlds_chains=len(bfsd), worlds_sim=len(sim), answers=total_n)
+    ctx.count("G", worlds_pairs=len(bfs2), worlds_triples=len(bfs3), worlds_chains=len(bfsd), worlds_sim=len(sim), answers=total_n)
     ctx.count("T", worlds_random=len(rnd))
     if first_trace:
         negative_samples(ctx, first_trace)
@@ -220,11 +231,11 @@ def run(ctx, replay):
     ctx.cov["evaluations"] = total_n
     ctx.cov["exhaustive"] = False
     ctx.cov["rule"] = ("world = claims on a permanode in arrival order (kind set/add/del with/without value, attribute, value id, date, signer) plus "
-                       "delete claims on claims, deletes and the permanode; exhaustive: all %d pairs of claims on one attribute and %d one-claim worlds "
-                       "with every delete chain; %d simulated worlds (<=5 claims, 2 attributes, 3 values, 3 dates, <=3 deletes); %d random worlds "
+                       "delete claims on claims, deletes and the permanode; exhaustive: all %d pairs of claims on one attribute, all %d triples of one signer's claims "
+                       "(reduced grid) and %d one-claim worlds with every delete chain of 3; %d simulated worlds (<=5 claims, 2 attributes, 3 values, 3 dates, <=3 deletes); %d random worlds "
                        "(2 permanodes, <=12 items); each world is asked the full grid attributes x 7-9 times x 3 signer filters on 9 query paths, the "
                        "incremental corpus after every delivery; evaluations = replies validated by TLC; distinct = distinct worlds"
-                       % (len(bfs2), len(bfsd), len(sim), len(rnd)))
+                       % (len(bfs2), len(bfs3), len(bfsd), len(sim), len(rnd)))
     ctx.assumptions += [
         "equal-dated claims may apply in any order (documentation silent): a reply must equal the fold of SOME order",
         "a multi-valued reply may list a repeated value once or as often as it was added (documentation calls tags both values and a set); search.Describe de-duplicates",
